@@ -828,7 +828,17 @@ func pickFE(r *mon.Rand) string {
 // genSub: a graph that is added as a node.
 func genSub(r *mon.Rand, depth int) *Sub {
 	b := genBuilt(r, depth, pickFE(r))
-	return newSub(b.fe, b.ops, b.opt != "" || r.Prob(0.2), b.opt)
+	// The graph is compiled by its parent only (a mutation may have put a Compile among its calls): the
+	// reference and eino are compared call by call at the top level only, and a Compile inside is where
+	// the two may part unnoticed (eino refuses a node without predecessor in all-predecessor mode, which
+	// the statement does not name and the reference does not model).
+	ops := b.ops[:0:0]
+	for _, o := range b.ops {
+		if o.K != "K" {
+			ops = append(ops, o)
+		}
+	}
+	return newSub(b.fe, ops, b.opt != "" || r.Prob(0.2), b.opt)
 }
 
 func shapeSeq(r *mon.Rand) *Seq {
